@@ -498,6 +498,9 @@ def run(prop, ctx, log):
             out += runupdk.runupd_queries(fl, 6 if thorough else 3, log, native, result)   # every affected asset reloaded exactly once per pass
             import modek
             out += modek.mode_queries(fl, 6 if thorough else 3, log, native, result)       # Local/Static mode switch: which calls run a pass, pending set consumed
+            import threadk
+            # "never re-reads the source on its own": the thread calls an update entry point only as the handler of a message it received (P2)
+            out += threadk.thread_queries(os.environ.get("VERIF_REPO", "/repo"), fl, 6 if thorough else 4, log, native, result)
             out += c06_flag_queries(fl, 2, log)
             if thorough:
                 out += c06_flag_queries(fl, 3, log)
